@@ -27,7 +27,7 @@ Definition terminated_ok (rounds : list round) : bool :=
   (if ctx_ended rounds then match busy with [] => true | _ => false end else true).
 
 Definition oracle_case (k : case) : bool :=
-  match k with Sched _ _ rounds p l => negb p && negb l && forallb terminated_ok (prefixes rounds) | GoChecked _ _ ok => ok end.
+  match k with Sched _ _ rounds p l => negb p && negb l && forallb terminated_ok (prefixes rounds) | GoChecked _ _ ok => ok | Http c => HttpSched.oracle_case c end.
 
 (* probes of the HTTP transport made on the Go side; three of them reproduce known findings *)
 Definition is_finding_kind (k : string) : bool :=
